@@ -131,6 +131,7 @@ func bbAppend(x *Exec, st *State, p *PtrVal, add *Term) {
 	nc := Cat(x.sliceBytes(st, b), add)
 	ns := x.newByteSlice(st, nc, "bb")
 	ns.Reg.Fresh = b.Reg.Fresh
+	ns.Reg.FreshT = b.Reg.FreshT
 	ns.Reg.Pool = true
 	x.storeRaw(st, &PtrVal{Obj: p.Obj, Path: append(append([]int(nil), p.Path...), 0), Nil: TFalse}, ns)
 }
@@ -384,6 +385,26 @@ func init() {
 		}
 		x.fail("math.Ceil on an expression other than float64(n)*7/8 at " + x.posOf(in))
 		return one(Fresh("ceil", SInt))
+	})
+	reg("unicode/utf16.Encode", func(x *Exec, st *State, fr *Frame, in ssa.Instruction, callee *ssa.Function, args []Value) []Value {
+		x.assume("A-BUF")
+		s := args[0].(*SliceVal)
+		rv := x.region(st, s.Reg)
+		n := App("utf16len", SInt, rv.Arr, s.Off, s.Len)
+		st.Assume(And(Le(s.Len, n), Le(n, Mul(IntLit(2), s.Len)), Le(IntLit(0), n)))
+		arr := App("utf16units", SArr(SInt, SInt), rv.Arr, s.Off, s.Len)
+		j := Const(fmt.Sprintf("j!q%d", x.nextQ()), SInt)
+		st.Assume(Forall([]*Term{j}, And(Le(IntLit(0), Select(arr, j)), Le(Select(arr, j), IntLit(65535))), Select(arr, j)))
+		reg := newObj(ObjRegion, types.Typ[types.Uint16], "utf16", true)
+		st.Heap[reg] = &RegionVal{Arr: arr, Len: n}
+		x.countAllocN(st, Mul(IntLit(2), n))
+		return one(&SliceVal{Reg: reg, Off: IntLit(0), Len: n, Cap: n, Nil: TFalse, Elt: types.Typ[types.Uint16]})
+	})
+	reg("github.com/valyala/bytebufferpool.(*Pool).Get", func(x *Exec, st *State, fr *Frame, in ssa.Instruction, callee *ssa.Function, args []Value) []Value {
+		return intrinsics["github.com/valyala/bytebufferpool.Get"](x, st, fr, in, callee, nil)
+	})
+	reg("github.com/valyala/bytebufferpool.(*Pool).Put", func(x *Exec, st *State, fr *Frame, in ssa.Instruction, callee *ssa.Function, args []Value) []Value {
+		return intrinsics["github.com/valyala/bytebufferpool.Put"](x, st, fr, in, callee, args[1:])
 	})
 	// ---- strings
 	reg("strings.Join", func(x *Exec, st *State, fr *Frame, in ssa.Instruction, callee *ssa.Function, args []Value) []Value {
